@@ -702,6 +702,13 @@ def t12_claims_lists_recurse(prog):
             if v in tails:
                 break           # delegates whole
             ok = isinstance(v, tuple) and v[0] == 'agg' and v[1] == 'tuple' and len(v[4]) == 2 and v[4][1] in tails
+            if ok:
+                h = v[4][0]
+                is_lit = isinstance(h, tuple) and h[0] == 'agg' and str(h[1]).endswith('::Claim')
+                per_view = isinstance(h, tuple) and h[0] == 'call' and any((e['ret'] == h and (e['path'].rsplit('::', 1)[0], e['name']) in _claim_fns(prog)) for e in p.calls(lambda e: True))
+                if not is_lit and not per_view:
+                    r.viol('T12', key + '/head-claim-opaque', f.loc(), 'the head claim %s is neither a Claim literal nor a per-view claim method (T13): what this list publishes for its first element cannot be decided' % pathsem.tstr(h)[:60])
+                    break
             if ok and st.get('k') == 'tuple' and len(st['e']) == 2:
                 g = [json.loads(x) for x in tails[v[4][1]]['gargs']]
                 ok = bool(g) and ty_eq(g[0], strip_regions(st['e'][1]))
@@ -711,4 +718,62 @@ def t12_claims_lists_recurse(prog):
             if not ok:
                 r.viol('T12', key + '/tail-claims-dropped', f.loc(), 'claims() does not append the claims() of the tail of its list (got %s): the rest of the list is published as unclaimed' % pathsem.tstr(v)[:100])
             break
+    return r
+
+
+def _claim_fns(prog):
+    """Trait methods without inputs that return a `Claim`: (trait path, method name)."""
+    out = set()
+    for f in prog.fns.values():
+        if f.kind != 'AssocFn' or (f.d.get('inputs') or []):
+            continue
+        o = f.d.get('output') or {}
+        if o.get('k') == 'adt' and o['path'].endswith('query::view::claim::Claim'):
+            tp = f.impl['trait']['path'] if (f.impl and f.impl.get('trait')) else (f.path.rsplit('::', 1)[0] if not f.impl else None)
+            if tp and tp in prog.traits:        # a trait of this crate (not Default::default for Claim)
+                out.add((tp, f.name))
+    return out
+
+
+@rule('T13', props=['C15', 'C08', 'C07'], floor=0, configs=('all',))
+def t13_per_view_claim_methods(prog):
+    """Should the crate compute a claim per view through a trait method (`fn claim() -> Claim`), that method is a table
+    like T1: for every impl of the trait — using the trait's provided body where the impl does not override it — an impl
+    whose (head) view is `&T`/`Option<&T>` answers `Immutable`, `&mut T`/`Option<&mut T>` answers `Mutable`, and an impl
+    whose head is not a view (the recursive "look further down" impl) forwards to the same method of its tail. A default
+    of `Immutable` silently inherited by a mutable or a recursive impl under-claims. (No such method exists on the
+    reference tree; the rule arms itself when one appears, and T12 refuses any other opaque head claim.)"""
+    from . import pathsem
+    r = Result()
+    for tp, name in sorted(_claim_fns(prog)):
+        for imp in prog.facts['impls']:
+            if not imp['trait'] or imp['trait']['path'] != tp:
+                continue
+            f = prog.impl_method_or_default(imp, name)
+            if f is None:
+                continue
+            st = imp['self']
+            head = st['e'][0] if st.get('k') == 'tuple' and len(st['e']) == 2 else st
+            tail = st['e'][1] if st.get('k') == 'tuple' and len(st['e']) == 2 else None
+            kind = view_kind_of(head)
+            key = '%s::%s for %s [%s]' % (tp.rsplit('::', 1)[-1], name, ty_str(st), '|'.join(ty_str(a) for a in trait_args(imp))[:60])
+            r.inst(key)
+            E = pathsem.analyse(prog, f)
+            rets = [p for p in E.paths if p.ended == 'return']
+            if E.truncated or len(rets) != 1:
+                r.viol('T13', key + '/not-analysable', f.loc(), 'cannot read the claim this impl publishes')
+                continue
+            v = rets[0].ret
+            lit = v[2] if isinstance(v, tuple) and v[0] == 'agg' and str(v[1]).endswith('::Claim') else None
+            fwd = [e for e in rets[0].calls(lambda e: e['name'] == name) if e['ret'] == v]
+            if kind and kind[0] in ('ref', 'opt'):
+                want = 'Mutable' if kind[1] else 'Immutable'
+                if lit != want:
+                    r.viol('T13', key + '/wrong-claim', f.loc(), 'view kind %s publishes claim %s (%s) but must publish %s' % (kind_str(kind), lit or pathsem.tstr(v)[:40], 'inherited default' if not f.impl else 'own body', want))
+            elif tail is None:
+                continue        # neither a view of a component/resource nor a list cell: nothing to claim
+            else:
+                g = [json.loads(x) for x in fwd[0]['gargs']] if fwd else []
+                if not (fwd and tail is not None and g and ty_eq(g[0], strip_regions(tail))):
+                    r.viol('T13', key + '/not-forwarding', f.loc(), 'an impl that skips its head must answer with the claim of its tail (got %s%s)' % (lit or pathsem.tstr(v)[:40], ', the trait default' if not f.impl else ''))
     return r
